@@ -3,6 +3,8 @@ use std::mem::MaybeUninit;
 /// Internal data holder, heavily unsage, do not use it directly.
 pub struct RecordMaybeUninit<const CAP: usize> {
     data: [MaybeUninit<u8>; CAP],
+    #[cfg(truc_verif)]
+    shadow: [u8; CAP],
 }
 
 impl<const CAP: usize> RecordMaybeUninit<CAP> {
@@ -10,6 +12,8 @@ impl<const CAP: usize> RecordMaybeUninit<CAP> {
     pub fn new() -> Self {
         Self {
             data: unsafe { std::mem::MaybeUninit::uninit().assume_init() },
+            #[cfg(truc_verif)]
+            shadow: [crate::verif::UNOWNED; CAP],
         }
     }
 
@@ -20,6 +24,13 @@ impl<const CAP: usize> RecordMaybeUninit<CAP> {
     /// This function should not be called by anything but truc-generated code. It is used to put
     /// data written by [`Self::write`] back in a droppable state.
     pub unsafe fn read<T>(&self, offset: usize) -> T {
+        #[cfg(truc_verif)]
+        crate::verif::access::<T>(
+            crate::verif::Access::Read,
+            offset,
+            self.data.as_ptr() as usize + offset,
+            &mut *(self.shadow.as_ptr() as *mut [u8; CAP]),
+        );
         std::ptr::read((self.data.as_ptr().add(offset) as *const u8).cast())
     }
 
@@ -30,6 +41,13 @@ impl<const CAP: usize> RecordMaybeUninit<CAP> {
     /// This function should not be called by anything but truc-generated code which is also
     /// responsible for dropping the data by reading the object (see [`Self::read`]).
     pub unsafe fn write<T>(&mut self, offset: usize, t: T) {
+        #[cfg(truc_verif)]
+        crate::verif::access::<T>(
+            crate::verif::Access::Write { aligned: false },
+            offset,
+            self.data.as_ptr() as usize + offset,
+            &mut self.shadow,
+        );
         std::ptr::write_unaligned((self.data.as_mut_ptr().add(offset) as *mut u8).cast(), t);
     }
 
@@ -39,6 +57,13 @@ impl<const CAP: usize> RecordMaybeUninit<CAP> {
     ///
     /// This function should not be called by anything but truc-generated code.
     pub unsafe fn get<T>(&self, offset: usize) -> &T {
+        #[cfg(truc_verif)]
+        crate::verif::access::<T>(
+            crate::verif::Access::Get,
+            offset,
+            self.data.as_ptr() as usize + offset,
+            &mut *(self.shadow.as_ptr() as *mut [u8; CAP]),
+        );
         &*(self.data.as_ptr().add(offset) as *mut u8).cast()
     }
 
@@ -48,7 +73,21 @@ impl<const CAP: usize> RecordMaybeUninit<CAP> {
     ///
     /// This function should not be called by anything but truc-generated code.
     pub unsafe fn get_mut<T>(&mut self, offset: usize) -> &mut T {
+        #[cfg(truc_verif)]
+        crate::verif::access::<T>(
+            crate::verif::Access::GetMut,
+            offset,
+            self.data.as_ptr() as usize + offset,
+            &mut self.shadow,
+        );
         &mut *(self.data.as_mut_ptr().add(offset) as *mut u8).cast()
+    }
+}
+
+#[cfg(truc_verif)]
+impl<const CAP: usize> Drop for RecordMaybeUninit<CAP> {
+    fn drop(&mut self) {
+        crate::verif::buffer_dropped(&self.shadow);
     }
 }
 
